@@ -16,6 +16,7 @@ var e2Props = map[string]*simcheck.Prop{
 	"C13": {ID: "C13", Gen: c13Gen, New: newHistScenario, Exec: c13Exec, Simplify: histSimplify},
 	"C14": {ID: "C14", Gen: c14Gen, New: newHistScenario, Exec: c14Exec, Simplify: histSimplify},
 	"C18": {ID: "C18", Gen: c18Gen, New: newHistScenario, Exec: c18Exec, Simplify: histSimplify},
+	"C15": {ID: "C15", Gen: c15Gen, New: newHistScenario, Exec: c15Exec, Simplify: histSimplify},
 	"C06": {ID: "C06", Gen: c06Gen, New: newHistScenario, Exec: c06Exec, Simplify: loadSimplify},
 }
 
